@@ -310,7 +310,7 @@ def run(ctx):
     for f in oracle_fail:
         ctx.violation("implementation violates C10: " + json.dumps({k: v for k, v in f.items() if k not in ("lines", "fresh_lines", "history")}, ensure_ascii=False)[:600],
                       {"kind": "impl-vs-oracle", "case": {k: v for k, v in f.items() if k != "lines"}, "lines": f["lines"]}, tag="oracle", signature={"kind": "c10-oracle", "why": f["why"]})
-    found = bool(oracle_fail)
+    found = bool(ctx.violations)          # (failures attributed to a known finding do not count)
     if shared and not found:
         ctx.violation("a mutable static shared between threads was found in src/ (hypothesis of sessions_independent)", {"kind": "theorem-hypothesis", "theorem": "MC.Props.C10.sessions_independent", "found": shared}, tag="hyp", no_input=True)
     if not pr["ok"] and not found:
